@@ -49,6 +49,7 @@ fn main() {
         "C15" => gen::c15(&mut out, tier, &mut rng, &mut st),
         "C16" => gen::c16(&mut out, tier, &mut rng, &mut st),
         "C17" => gen::c17(&mut out, tier, &mut rng, &mut st),
+        "C18" => gen::c18(&mut out, tier, &mut rng, &mut st),
         "C02" => bddprops::c02(&mut out, tier, &mut rng, &mut st),
         "C03" => bddprops::c03(&mut out, tier, &mut rng, &mut st),
         "C04" => bddprops::c04(&mut out, tier, &mut rng, &mut st),
